@@ -32,7 +32,11 @@ K4Free(G)       == ~\E S \in SUBSET Verts(G.n) : Cardinality(S) = 4 /\ \A a, b \
 ClawFree(G)     == ~\E c \in Verts(G.n) : \E S \in SUBSET Nbrs(G, c) : Cardinality(S) = 3 /\ \A a, b \in S : ~Adj(G, a, b)
 Bipartite(G)    == \E f \in [Verts(G.n) -> {0, 1}] : \A e \in G.E : \E a, b \in e : f[a] # f[b]
 Forest(G)       == \A S \in SUBSET Verts(G.n) : S = {} \/ \E v \in S : Cardinality(Nbrs(G, v) \cap S) <= 1
-Holds(pred, G) == CASE pred = "trianglefree" -> TriangleFree(G) [] pred = "maxdeg2" -> MaxDeg2(G) [] pred = "k4free" -> K4Free(G)
+Alpha2(G)       == ~\E S \in SUBSET Verts(G.n) : Cardinality(S) = 3 /\ \A a, b \in S : ~Adj(G, a, b)
+CMulti(G)       == ~\E a, b, c \in Verts(G.n) : a # b /\ a # c /\ Adj(G, b, c) /\ ~Adj(G, a, b) /\ ~Adj(G, a, c)
+Cograph(G)      == ~\E a, b, c, d \in Verts(G.n) : Cardinality({a, b, c, d}) = 4 /\ Adj(G, a, b) /\ Adj(G, b, c) /\ Adj(G, c, d)
+                                                      /\ ~Adj(G, a, c) /\ ~Adj(G, a, d) /\ ~Adj(G, b, d)
+Holds(pred, G) == CASE pred = "alpha2" -> Alpha2(G) [] pred = "cmulti" -> CMulti(G) [] pred = "cograph" -> Cograph(G) [] pred = "trianglefree" -> TriangleFree(G) [] pred = "maxdeg2" -> MaxDeg2(G) [] pred = "k4free" -> K4Free(G)
                     [] pred = "clawfree" -> ClawFree(G) [] pred = "bipartite" -> Bipartite(G) [] pred = "forest" -> Forest(G) [] OTHER -> TRUE
 
 AllYields(e) == UNION { { e.yields[a][k] : k \in 1..Len(e.yields[a]) } : a \in 1..Len(e.yields) }
@@ -54,13 +58,25 @@ JudgeRun(e) ==
     ELSE IF codes # { CanonCode(G) : G \in { H \in reps : Holds(e.pred, H) } } THEN "pruned search does not yield exactly the classes that satisfy the predicate"
     ELSE ""
 
+(* large pruned searches: relational judgement (no canonical code for every graph) *)
+JudgeBig(e) ==
+    LET n == e.n  ys == AllYields(e) IN
+    IF e.res # "ok" THEN e.res
+    ELSE IF \E y \in ys : y.n # n THEN "a yielded graph does not have n vertices"
+    ELSE IF \E y \in ys : ~WF(n, y) THEN "a yielded graph is not well formed (M or Degrees do not match its edges)"
+    ELSE IF \E y \in ys : ~Holds(e.pred, GofY(n, y)) THEN "a yielded graph violates the pruning predicate"
+    ELSE IF \E i \in 1..Len(e.dups) : LET d == e.dups[i] IN IsPermSeq(d.p, n) /\ d.a.e # d.b.e /\ Relabel(GofY(n, d.a), d.p) = GofY(n, d.b)
+         THEN "two yielded graphs are isomorphic (witness permutation checked)"
+    ELSE IF e.counts[1] # e.counts[2] \/ e.counts[1] # e.counts[3] THEN "preprune, prune and sharded searches yield different numbers of graphs"
+    ELSE ""
+
 TInit == l = 1 /\ bad = <<>> /\ dead = FALSE /\ reps = {}
          /\ st = [segs |-> 0, runs |-> 0, graphs |-> 0, pruned |-> 0, sharded |-> 0, nontrivial |-> 0]
 TStep ==
     /\ l <= NEvents /\ l' = l + 1
     /\ IF Ev.ev = "Reset" THEN bad' = bad /\ dead' = FALSE /\ reps' = {} /\ st' = [st EXCEPT !.segs = @ + 1]
        ELSE IF dead THEN UNCHANGED <<bad, dead, reps, st>>
-       ELSE LET why == JudgeRun(Ev) IN
+       ELSE LET why == IF Ev.ev = "RunBig" THEN JudgeBig(Ev) ELSE JudgeRun(Ev) IN
             /\ bad' = IF why = "" THEN bad ELSE Note(bad, [seg |-> Ev.seg, l |-> l, why |-> why \o " [n=" \o ToString(Ev.n) \o ",m=" \o ToString(Ev.m) \o "," \o Ev.pred \o "," \o Ev.place \o "]"])
             /\ dead' = (why # "")
             /\ reps' = IF reps = {} /\ Ev.pred = "none" /\ why = "" THEN { GofY(Ev.n, y) : y \in AllYields(Ev) } ELSE reps
